@@ -156,3 +156,4 @@ def relevant_difference(c, mo, io):
 
 def known_F12_hash_error_order(c, mo, io):
     return c['kind'] == 'f12'
+known_F12_hash_error_order.nondeterministic = True
